@@ -203,7 +203,8 @@ def _hillclimb_small_scope(tier, seed):
     sizes = (16, 48) if tier == "quick" else (16, 48, 80)
     intervals = [(s, e) for s in range(T + 1) for e in range(s, T + 1)]
     shapes = [(s, e, z) for (s, e) in intervals for z in sizes]
-    out = dict(name="HillClimbAllocator: neighbour relation of __init__ and live => disjoint / aligned / reported total of allocate()",
+    out = dict(name="HillClimbAllocator: neighbour relation of __init__ and live => disjoint / aligned / reported total of allocate(); "
+                    "GreedyAllocator.allocate_live_ranges: live => disjoint / aligned / reported total",
                label="bounded",
                bound="all multisets of 2 and 3 live ranges with start <= end in 0..%d, size in %r, alignment 16 (+ one mixed-alignment family), "
                      "max_iterations in (None, 0, 3), native evaluation of the real code" % (T, sizes),
@@ -250,6 +251,42 @@ def _hillclimb_small_scope(tier, seed):
         msg = check(spec, None, align=32)
         if msg and len(bad) < 5:
             bad.append("HillClimbAllocator(%r, alignment 32): %s" % (list(spec), msg))
+    # Greedy allocator end to end on the same scope (alloc is proved above; dealloc and the time-ordered driver loop are not under contract)
+    class _Graph:
+        pass
+
+    def check_greedy(spec, align):
+        lrs = mk(spec, align)
+        addr = {}
+        for lr in lrs:
+            lr.set_address = (lambda a, _lr=lr: addr.__setitem__(id(_lr), a) or a)
+        g = _Graph()
+        g.lrs = lrs
+        total = ga.allocate_live_ranges(g, align)
+        for i, (s, e, z) in enumerate(spec):
+            ai = addr[id(lrs[i])]
+            if ai < 0 or ai % align != 0:
+                return "range %d placed at %r (alignment %d)" % (i, ai, align)
+            for j in range(i):
+                s2, e2, z2 = spec[j]
+                aj = addr[id(lrs[j])]
+                if s <= e2 and s2 <= e and not (ai + z <= aj or aj + z2 <= ai):
+                    return "ranges %d and %d are live together and overlap: [%d,%d) [%d,%d)" % (j, i, aj, aj + z2, ai, ai + z)
+        want = max(addr[id(lr)] + -(-z // align) * align for lr, (_s, _e, z) in zip(lrs, spec))
+        if total != want:
+            return "reported total %r is not the highest aligned end %r" % (total, want)
+        return None
+
+    for n in (2, 3):
+        for spec in itertools.combinations_with_replacement(shapes, n):
+            for align in (16, 32):
+                out["cases"] += 1
+                try:
+                    msg = check_greedy(spec, align)
+                except Exception as e:  # noqa
+                    msg = "raised %s: %s" % (type(e).__name__, e)
+                if msg and len(bad) < 5:
+                    bad.append("greedy allocate_live_ranges(%r, alignment %d): %s" % (list(spec), align, msg))
     if bad:
         import json
         import os
